@@ -177,6 +177,8 @@ def get_func(frame: FrameType) -> Optional[Callable[..., Any]]:
 
 
 RETURN_VALUE_OPCODE = opcode.opmap["RETURN_VALUE"]
+# Python 3.12+ compiles `return <constant>` (and the implicit `return None`) to RETURN_CONST
+RETURN_CONST_OPCODE = opcode.opmap.get("RETURN_CONST")
 YIELD_VALUE_OPCODE = opcode.opmap["YIELD_VALUE"]
 
 # A CodeFilter is a predicate that decides whether or not a the call for the
@@ -258,7 +260,7 @@ class CallTracer:
         elif last_opcode == YIELD_VALUE_OPCODE:
             trace.add_yield_type(typ)
         else:
-            if last_opcode == RETURN_VALUE_OPCODE:
+            if last_opcode in (RETURN_VALUE_OPCODE, RETURN_CONST_OPCODE):
                 trace.return_type = typ
             del self.traces[frame]
             self.logger.log(trace)
